@@ -1,0 +1,67 @@
+//! Verification hooks (feature `verif-hooks`, off by default).
+//!
+//! A table of site counters that external monitors read to learn which
+//! internal code paths a workload actually reached. Purely additive: nothing
+//! in the crate reads these counters.
+
+use core::sync::atomic::{AtomicU64, Ordering};
+
+macro_rules! sites {
+    ($($name:ident),* $(,)?) => {
+        /// Instrumented code sites.
+        #[allow(non_camel_case_types, missing_docs)]
+        #[derive(Copy, Clone, Debug, PartialEq, Eq)]
+        #[repr(usize)]
+        pub enum Site { $($name),* }
+        /// Names of all sites, indexed by `Site as usize`.
+        pub const SITE_NAMES: &[&str] = &[$(stringify!($name)),*];
+    };
+}
+
+sites! {
+    graph_index_twice_one,
+    graph_index_twice_both,
+    graph_remove_node_swapped,
+    graph_remove_edge_swapped,
+    stable_reuse_vacant_node,
+    stable_reuse_vacant_edge,
+    stable_add_vacant_node,
+    matrix_grow_overlapping,
+    matrix_grow_nonoverlapping,
+    matrix_id_reused,
+    matrix_id_fresh,
+    csr_find_linear,
+    csr_find_binary,
+    unionfind_halving_step,
+    acyclic_reorder,
+    acyclic_no_reorder,
+    matching_blossom_join,
+    matching_augment_edge_label,
+    astar_reexpand,
+    spfa_requeue,
+    bellman_ford_early_exit,
+    vf2_unwind,
+    serde_link_edges_graph,
+    serde_link_edges_stable,
+}
+
+const N_SITES: usize = SITE_NAMES.len();
+#[allow(clippy::declare_interior_mutable_const)]
+const ZERO: AtomicU64 = AtomicU64::new(0);
+static COUNTERS: [AtomicU64; N_SITES] = [ZERO; N_SITES];
+
+/// Record that `site` was executed.
+#[inline]
+pub fn hit(site: Site) {
+    COUNTERS[site as usize].fetch_add(1, Ordering::Relaxed);
+}
+
+/// Current value of the counter of `site`.
+pub fn count(site: Site) -> u64 {
+    COUNTERS[site as usize].load(Ordering::Relaxed)
+}
+
+/// Current value of the counter with index `i` (see [`SITE_NAMES`]).
+pub fn count_index(i: usize) -> u64 {
+    COUNTERS[i].load(Ordering::Relaxed)
+}
